@@ -129,11 +129,16 @@ fn check_trees(w_desc: &str, n: usize, enc: &EncoderHuffmanTree, dec: &DecoderHu
         }
     }
     if n >= 2 {
+        // exact Kraft equality for any code length: pair up leaves level by level
         let maxl = cws.iter().map(|c| c.len()).max().unwrap();
-        if maxl < 64 {
-            let k: u128 = cws.iter().map(|c| 1u128 << (maxl - c.len())).sum();
-            if k != 1u128 << maxl { fail("Kraft sum is not exactly 1", format!("lengths {:?}", cws.iter().map(|c| c.len()).collect::<Vec<_>>())); }
+        let mut counts = vec![0u64; maxl + 1];
+        for c in &cws { counts[c.len()] += 1; }
+        let mut ok = true;
+        for l in (1..=maxl).rev() {
+            if counts[l] % 2 != 0 { ok = false; break; }
+            counts[l - 1] += counts[l] / 2;
         }
+        if !ok || counts[0] != 1 { fail("Kraft sum is not exactly 1", format!("lengths {:?}", cws.iter().map(|c| c.len()).collect::<Vec<_>>())); }
     } else if !cws[0].is_empty() {
         fail("single symbol has a non-empty codeword", format!("{:?}", cws[0]));
     }
@@ -164,7 +169,10 @@ fn check_trees(w_desc: &str, n: usize, enc: &EncoderHuffmanTree, dec: &DecoderHu
             }
         }
     }
-    for s in [n, n + 1, 2 * n, 2 * n + 1, usize::MAX, usize::MAX / 2] {
+    let mut outside: Vec<usize> = (n..=(2 * n + 2).min(n + 40)).collect();
+    outside.extend([2 * n.saturating_sub(1), 2 * n, 2 * n + 1, usize::MAX, usize::MAX / 2, 1 << 32, (1 << 32) + 1]);
+    outside.retain(|&s| s >= n);
+    for s in outside {
         if cw_prefix(enc, s).is_some() || cw_suffix(enc, s).is_some() {
             fail("symbol outside the alphabet accepted", format!("symbol {s}"));
         }
@@ -248,13 +256,51 @@ fn specials(report: &Report) {
             report.violation(Violation { identity: i, detail: d, case: json!({"kind": "none"}) });
         }
     }
+    // very deep trees: codewords longer than 64 and 128 bits (weights wider than u32 are needed for those)
+    let mut longest = 0usize;
+    {
+        let fib: Vec<u64> = { let mut v = vec![1u64, 1]; while v.len() < 90 { let k = v.len(); v.push(v[k - 1] + v[k - 2]); } v };
+        let geo63: Vec<u64> = (0..63).map(|i| 1u64 << i).collect();
+        for w in [fib, geo63] {
+            n += 1;
+            let enc = EncoderHuffmanTree::from_probabilities::<u64, _>(&w);
+            let dec = DecoderHuffmanTree::from_probabilities::<u64, _>(&w);
+            longest = longest.max((0..w.len()).filter_map(|s| cw_suffix(&enc, s)).map(|c| c.len()).max().unwrap_or(0));
+            for (i, d) in check_trees(&format!("{} u64 weights starting {:?}", w.len(), &w[..3]), w.len(), &enc, &dec, &reference_codewords(&w), None) {
+                report.violation(Violation { identity: i, detail: d, case: json!({"kind": "none"}) });
+            }
+        }
+        for len in [66usize, 80, 127] {
+            n += 1;
+            let w: Vec<u128> = (0..len).map(|i| 1u128 << i).collect();
+            let enc = EncoderHuffmanTree::from_probabilities::<u128, _>(&w);
+            let dec = DecoderHuffmanTree::from_probabilities::<u128, _>(&w);
+            longest = longest.max((0..w.len()).filter_map(|s| cw_suffix(&enc, s)).map(|c| c.len()).max().unwrap_or(0));
+            for (i, d) in check_trees(&format!("{len} u128 weights 2^i"), w.len(), &enc, &dec, &reference_codewords(&w), None) {
+                report.violation(Violation { identity: i, detail: d, case: json!({"kind": "none"}) });
+            }
+        }
+        for (len, rev) in [(70usize, false), (140, false), (200, true)] {
+            n += 1;
+            let mut w: Vec<f64> = (0..len).map(|i| (2.0f64).powi(i as i32 - 60)).collect();
+            if rev { w.reverse(); }
+            let enc = EncoderHuffmanTree::from_float_probabilities::<f64, _>(&w).unwrap();
+            let dec = DecoderHuffmanTree::from_float_probabilities::<f64, _>(&w).unwrap();
+            longest = longest.max((0..w.len()).filter_map(|s| cw_suffix(&enc, s)).map(|c| c.len()).max().unwrap_or(0));
+            for (i, d) in check_trees(&format!("{len} f64 weights 2^(i-60){}", if rev { " reversed" } else { "" }), w.len(), &enc, &dec, &reference_codewords(&w), None) {
+                report.violation(Violation { identity: i, detail: d, case: json!({"kind": "none"}) });
+            }
+        }
+    }
+    report.count("longest_codeword_bits", longest as u64);
+    if longest < 190 { panic!("HARNESS: the deep-tree vectors must reach codewords of >= 190 bits, got {longest}"); }
     report.count("special_weight_vectors", n);
     report.add_traces(n);
 }
 
 pub fn run(report: &Report) {
     let q = report.tier == Tier::Quick;
-    report.bound("all weight vectors of length 1..=L over the listed weight alphabets, each as u32, f64 and f32; special vectors (NaN, zeros, denormals, huge, 200 equal, geometric)");
+    report.bound("all weight vectors of length 1..=L over the listed weight alphabets, each as u32, f64 and f32; special vectors (NaN, zeros, denormals, huge, 200 equal, geometric and Fibonacci weights as u64/u128/f64 giving codewords of up to 199 bits)");
     report.assume("optimality oracle: brute force over all full binary trees for n <= 6, an independent cost-only merge above (asserted equal to the brute force where both run)");
     report.require("weight_vectors");
     report.sample(json!({"weights": [3, 1, 2, 0, 5], "checked": ["prefix-free", "Kraft == 1", "cost == brute-force optimum", "codewords == reference (weight,index)", "prefix == reversed suffix", "decode(codeword) == symbol", "symbols >= n rejected"]}));
